@@ -162,32 +162,32 @@ theorem bfs_relabel' (σ σ' : Node → Node) (hl : ∀ i, σ' (σ i) = i)
   rw [List.length_map]
 
 /-! the components of one generation -/
-def newInf (P : DParams) (s : DState) : List Node :=
+def newInfRl (P : DParams) (s : DState) : List Node :=
   P.nodes.filter fun v => s.sus v && s.inf.any fun u => (P.nbrs u).contains v && P.rule u v
-def stay (P : DParams) (s : DState) : List Node :=
+def stayRl (P : DParams) (s : DState) : List Node :=
   match P.recSteps with
   | none => []
   | some k => s.inf.filter fun u => s.age u + 1 < k u
 def recovered (P : DParams) (s : DState) : Int :=
   match P.recSteps with
   | none => (s.inf.length : Int)
-  | some _ => ((s.inf.length - (stay P s).length : Nat) : Int)
+  | some _ => ((s.inf.length - (stayRl P s).length : Nat) : Int)
 
-theorem step_inf (P : DParams) (s : DState) :
-    (step P s).inf = P.nodes.filter fun v => (newInf P s).contains v || (stay P s).contains v := by
+theorem step_inf_rl (P : DParams) (s : DState) :
+    (step P s).inf = P.nodes.filter fun v => (newInfRl P s).contains v || (stayRl P s).contains v := by
   obtain ⟨nodes, nbrs, rule, recSteps, tmin, tmax⟩ := P
   cases recSteps <;> rfl
-theorem step_S (P : DParams) (s : DState) : (step P s).S = (s.nS - ((newInf P s).length : Int)) :: s.S := by
+theorem step_S_rl (P : DParams) (s : DState) : (step P s).S = (s.nS - ((newInfRl P s).length : Int)) :: s.S := by
   obtain ⟨nodes, nbrs, rule, recSteps, tmin, tmax⟩ := P
   cases recSteps <;> rfl
-theorem step_I (P : DParams) (s : DState) : (step P s).I = (((step P s).inf.length : Nat) : Int) :: s.I := by
+theorem step_I_rl (P : DParams) (s : DState) : (step P s).I = (((step P s).inf.length : Nat) : Int) :: s.I := by
   obtain ⟨nodes, nbrs, rule, recSteps, tmin, tmax⟩ := P
   cases recSteps <;> rfl
-theorem step_R (P : DParams) (s : DState) : (step P s).R = (s.totR + recovered P s) :: s.R := by
+theorem step_R_rl (P : DParams) (s : DState) : (step P s).R = (s.totR + recovered P s) :: s.R := by
   obtain ⟨nodes, nbrs, rule, recSteps, tmin, tmax⟩ := P
   cases recSteps <;> rfl
-theorem step_infTime (P : DParams) (s : DState) :
-    (step P s).infTime = s.infTime ++ (newInf P s).map fun v => (v, s.t.headD P.tmin + 1) := by
+theorem step_infTime_rl (P : DParams) (s : DState) :
+    (step P s).infTime = s.infTime ++ (newInfRl P s).map fun v => (v, s.t.headD P.tmin + 1) := by
   obtain ⟨nodes, nbrs, rule, recSteps, tmin, tmax⟩ := P
   cases recSteps <;> rfl
 
@@ -198,7 +198,7 @@ def relabelSt (σ σ' : Node → Node) (s : DState) : DState :=
            infectors := s.infectors.map fun e => (σ e.1, e.2.1, e.2.2.map σ) }
 
 theorem newInf_relabel (σ σ' : Node → Node) (hl : ∀ i, σ' (σ i) = i) (P : DParams) (s : DState) :
-    newInf (relabel σ σ' P) (relabelSt σ σ' s) = (newInf P s).map σ := by
+    newInfRl (relabel σ σ' P) (relabelSt σ σ' s) = (newInfRl P s).map σ := by
   show ((P.nodes.map σ).filter fun v => s.sus (σ' v) && (s.inf.map σ).any fun u =>
     ((relabel σ σ' P).nbrs u).contains v && (relabel σ σ' P).rule u v) = _
   rw [Relabel.filter_map]
@@ -206,7 +206,7 @@ theorem newInf_relabel (σ σ' : Node → Node) (hl : ∀ i, σ' (σ i) = i) (P 
   rfl
 
 theorem stay_relabel (σ σ' : Node → Node) (hl : ∀ i, σ' (σ i) = i) (P : DParams) (s : DState) :
-    stay (relabel σ σ' P) (relabelSt σ σ' s) = (stay P s).map σ := by
+    stayRl (relabel σ σ' P) (relabelSt σ σ' s) = (stayRl P s).map σ := by
   obtain ⟨nodes, nbrs, rule, recSteps, tmin, tmax⟩ := P
   cases recSteps with
   | none => rfl
@@ -223,7 +223,7 @@ theorem recovered_relabel (σ σ' : Node → Node) (hl : ∀ i, σ' (σ i) = i) 
   cases recSteps with
   | none => show (((s.inf.map σ).length : Nat) : Int) = _; rw [List.length_map]; rfl
   | some k =>
-    show ((((s.inf.map σ).length - (stay _ _).length : Nat)) : Int) = _
+    show ((((s.inf.map σ).length - (stayRl _ _).length : Nat)) : Int) = _
     rw [hs, List.length_map, List.length_map]; rfl
 
 theorem step_relabel' (σ σ' : Node → Node) (hl : ∀ i, σ' (σ i) = i) (P : DParams) (s : DState) :
@@ -233,15 +233,15 @@ theorem step_relabel' (σ σ' : Node → Node) (hl : ∀ i, σ' (σ i) = i) (P :
     (step (relabel σ σ' P) (relabelSt σ σ' s)).R = (step P s).R ∧
     (step (relabel σ σ' P) (relabelSt σ σ' s)).infTime = (step P s).infTime.map fun e => (σ e.1, e.2) := by
   have hinf : (step (relabel σ σ' P) (relabelSt σ σ' s)).inf = (step P s).inf.map σ := by
-    rw [step_inf, step_inf, newInf_relabel σ σ' hl, stay_relabel σ σ' hl]
+    rw [step_inf_rl, step_inf_rl, newInf_relabel σ σ' hl, stay_relabel σ σ' hl]
     show ((P.nodes.map σ).filter _) = _
     rw [Relabel.filter_map]
     simp only [Relabel.contains_map hl]
   refine ⟨hinf, ?_, ?_, ?_, ?_⟩
-  · rw [step_S, step_S, newInf_relabel σ σ' hl, List.length_map]; rfl
-  · rw [step_I, step_I, hinf, List.length_map]; rfl
-  · rw [step_R, step_R, recovered_relabel σ σ' hl]; rfl
-  · rw [step_infTime, step_infTime, newInf_relabel σ σ' hl, List.map_append, List.map_map, List.map_map]
+  · rw [step_S_rl, step_S_rl, newInf_relabel σ σ' hl, List.length_map]; rfl
+  · rw [step_I_rl, step_I_rl, hinf, List.length_map]; rfl
+  · rw [step_R_rl, step_R_rl, recovered_relabel σ σ' hl]; rfl
+  · rw [step_infTime_rl, step_infTime_rl, newInf_relabel σ σ' hl, List.map_append, List.map_map, List.map_map]
     rfl
 
 end Discrete
